@@ -108,6 +108,20 @@ func runC17(c *Ctx) {
 		})
 	}
 
+	// returning the input itself (unclipped) is tolerated only where the input is known to be empty
+	if fn := P.Func("slice", "", "Partition"); fn != nil {
+		allInstrs(fn, func(in ssa.Instruction) {
+			ret, ok := in.(*ssa.Return)
+			if !ok || len(ret.Results) != 1 || ret.Results[0] != ssa.Value(fn.Params[0]) {
+				return
+			}
+			db := factsDBAt(ret.Block())
+			ln := "len(" + sym(fn.Params[0]) + ")"
+			empty := db.has(ln, token.EQL, "0") || db.has(ln, token.LEQ, "0") || db.has(ln, token.LSS, "1")
+			c.judge(empty, "R-CLIP", "slice.Partition:return input itself", ret.Pos(), "only for an empty input (nothing to protect)", "the input slice itself is returned, with its full capacity, on a path where it may be non-empty: appending to the result overwrites memory behind it")
+		})
+	}
+
 	// ---- R-DIV-NONZERO (package slice)
 	var fns []*ssa.Function
 	for _, fn := range P.PkgFuncs("slice") {
